@@ -45,8 +45,10 @@ func posMod(a, b int) int { return ((a % b) + b) % b }
 
 var specialStrings = []string{
 	"a", "b", "", "ab", "A", "B", "é", "<&>", "\"q\"", "1", "2", "10", "null", "true", "{", "}", "[", "]",
-	",", ":", "\\", "a b", "\t", " ", "日本", "aa", "Aa", "b:", "\"a\":", "\"1\"", "0", "-3", "k", "K",
-	"\x7f", "zz", "Zz", "éa", "a,b", "{\"a\":1}", "[1]", " ", "  ", "x", "y", "z", "X", "Y", "Z",
+	",", ":", "\\", "a b", "\t", " ", "日本", "aa", "Aa", "b:", "\"a\":", "\"1\"", "0", "-3", "k", "K",
+	"\x7f", "zz", "Zz", "éa", "a,b", "{\"a\":1}", "[1]", "\n", "  ", "x", "y", "z", "X", "Y", "Z",
+	"\x00", "\x01", "\x1f", "\x1b[0m", "\u0080", "\u2028", "\u2029", "\U0001F600", "\ufffd", "\\u0041", "a\x00b", "\r\n", "\v", "\a",
+	"'", "`", "/", "\\\"", "0.5", "1e3", "-0", "01", "+1", " 1", "9007199254740993", "\U0010ffff", "e\u0301", "ß", "ǅ", "İ",
 }
 
 func intTab(n int) []int {
@@ -61,11 +63,13 @@ func intTab(n int) []int {
 	return t
 }
 
-func strTab(n int) []string {
+// strTab draws n distinct strings: the pool of special strings rotated by a per-run offset (so that
+// small tables also meet the unusual ones), then generated ones.
+func strTab(n int, off int) []string {
 	t := make([]string, n)
 	for i := range t {
 		if i < len(specialStrings) {
-			t[i] = specialStrings[i]
+			t[i] = specialStrings[(i+off)%len(specialStrings)]
 		} else {
 			t[i] = fmt.Sprintf("s%03d", i)
 		}
@@ -122,8 +126,8 @@ func intDom(n int, cmpName string) *Dom[int] {
 	return d
 }
 
-func strDom(n int, cmpName string) *Dom[string] {
-	d := &Dom[string]{Elem: "string", CmpName: cmpName, Tab: strTab(n), Str: strconv.Quote}
+func strDom(n int, cmpName string, off int) *Dom[string] {
+	d := &Dom[string]{Elem: "string", CmpName: cmpName, Tab: strTab(n, off), Str: strconv.Quote}
 	switch cmpName {
 	case "", "nat":
 		d.CmpName = "nat"
